@@ -35,7 +35,7 @@ def abstract_entries(events: List[Dict[str, Any]], base: int, u: int) -> List[Di
         dur = Fraction(e["dur"]) * u
         assert ts.denominator == 1 and dur.denominator == 1, (e, u)
         out.append({"id": i, "kind": "X", "ts": int(ts), "dur": int(dur), "pid": e["pid"], "tid": e["tid"],
-                    "stream": int(a.get("stream", -1)), "corr": int(a.get("correlation", -1)), "name": e["name"], "cat": e["cat"]})
+                    "stream": clip(int(a.get("stream", -1))), "corr": int(a.get("correlation", -1)), "name": e["name"], "cat": e["cat"]})
     return out
 
 
@@ -46,7 +46,7 @@ def project_frame(df, sym_table: List[str], base: int, shifted: bool) -> List[Di
     for t in df[cols].itertuples(index=False):
         rows.append({
             "id": hta.ival(t[0]), "ts": clip(hta.ival(t[1]) - off), "dur": clip(hta.ival(t[2])),
-            "end": clip(hta.ival(t[3]) - off), "pid": hta.ival(t[4]), "tid": hta.ival(t[5]), "stream": hta.ival(t[6]),
+            "end": clip(hta.ival(t[3]) - off), "pid": hta.ival(t[4]), "tid": hta.ival(t[5]), "stream": clip(hta.ival(t[6])),
             "corr": clip(hta.ival(t[7])), "name": sym_table[int(t[8])], "cat": sym_table[int(t[9])],
             "link": hta.ival(t[10]), "iter": hta.ival(t[11]),
         })
@@ -103,7 +103,7 @@ def load_cfg(rng: random.Random, tier: str, prop: str) -> gen.GenCfg:
         unlinked_head=rng.choice([0, 0, 1, 2]),
         bwd_thread=rng.random() < 0.3,
         adv=rng.choice([(0, 0, 1, 1, 2, 3), (0, 1, 2, 5), (1, 2, 3)]),
-        extras=rng.random() < 0.7,
+        extras=rng.random() < 0.7, big_stream_marker=rng.random() < 0.3, p_nocorr_head=rng.choice([0.0, 0.5]),
         corr_base=rng.choice([0, 0, 100, 32700, 70000]),
         max_children=rng.choice([3, 3, 4]), max_depth=rng.choice([3, 3, 4]), ops_per_step=rng.choice([(1, 3), (2, 5)]),
     )
